@@ -94,7 +94,7 @@ func runC11(c *Ctx) {
 	c.rule("D4", "converters normalise context errors first; a pass-through case for ErrTimeout/ErrCancelled precedes every re-classifying case", 5)
 	c.rule("D6", "deserialisation re-joins every element after the kind into the reason: loop from index 1, step one, unconditional append of the (trimmed) element", 1)
 	c.rule("D10", "WrapIfNotCommonError / WrapIfNotCommonErrorf: the branch that gives the result the kind of the cause is reached only where the target was found not to be a cancellation or a deadline", 2)
-	c.rule("D11", "the filesystem and process converters are stable when applied twice: no case that goes by the error's description (here or in a converter they delegate to) can be reached by an error that IsCommonError recognised", 2)
+	c.rule("D11", "the filesystem, process and I/O converters are stable when applied twice: no case that goes by the error's description (here or in a converter they delegate to) can be reached by an error that IsCommonError recognised", 2)
 	c.rule("D9", "serialisation: where the parsed kind is replaced by the error Unwrap() returned, the description of that error is compared with the parsed text and the reason is rewritten accordingly (what the wrapped error already says is not said twice)", 1)
 	c.rule("D7", "writer and reader of the text form agree on the separators: kind/reason (constructors vs deserialiser) and joined errors (marshaller, errors.Join vs deserialiser); every line of a joined error is read, whatever its length", 3)
 	c.rule("D8", "the filesystem converter maps a backend condition to one kind whatever the path: no case that recognises a condition by the error's text (which embeds the caller's path) is evaluated before a case that recognises another condition structurally; the timeout case recognises Timeout() errors (os.IsTimeout); no converter that goes by the text is applied before the table; the same order in the process converter", 4)
@@ -780,6 +780,8 @@ func (c *Ctx) c11ConverterTables() {
 	c.c11ConverterTable("proc", "ConvertProcessError", false)
 	c.c11ConverterStable("filesystem", "ConvertFileSystemError")
 	c.c11ConverterStable("proc", "ConvertProcessError")
+	// the I/O converter has no case that goes by the description today; one that is added must sit behind the same guard
+	c.c11ConverterStable("safeio", "ConvertIOError")
 }
 
 // c11ConverterStable (D11). The converters are applied by helpers that call one another, so an error goes through them more
